@@ -10,6 +10,7 @@ import (
 	"bufio"
 	"context"
 	"encoding/json"
+	"errors"
 	"fmt"
 	"math/rand"
 	"os"
@@ -36,7 +37,7 @@ type event struct {
 	Ev      string            `json:"ev"`
 	Hid     int               `json:"hid"`
 	Kind    string            `json:"kind"`
-	Path    string            `json:"path"`  // local | remote-ok | remote-err | noaddr | baddim
+	Path    string            `json:"path"`  // local | remote-ok | remote-err | noaddr | down | baddim
 	Order   string            `json:"order"` // caller-first | apply-first
 	Id      int               `json:"id"`
 	Ret     string            `json:"ret"` // ok | exists | notfound | dim | err | timeout
@@ -59,6 +60,7 @@ const (
 )
 
 type world struct {
+	conn *cluster.Conn
 	ds   *storage.Dataset
 	node *sim.Node
 	ids  map[int][]uuid.UUID // partition -> pool of ids routed to it
@@ -77,6 +79,8 @@ func classify(err error) string {
 		return "notfound"
 	case strings.Contains(s, storage.DimensionMissmatchErr.Error()):
 		return "dim"
+	case strings.HasPrefix(s, "HANG"):
+		return "hang"
 	case strings.Contains(s, "deadline exceeded"):
 		return "timeout"
 	}
@@ -105,7 +109,7 @@ func newWorld() *world {
 	if err := ds.VerifLoadRaft(pLocal, []uint64{1}); err != nil {
 		panic(err)
 	}
-	w := &world{ds: ds, node: n, ids: map[int][]uuid.UUID{}, next: map[int]int{}}
+	w := &world{conn: conn, ds: ds, node: n, ids: map[int][]uuid.UUID{}, next: map[int]int{}}
 	for i := 1; len(w.ids[0]) < 4000 || len(w.ids[1]) < 4000 || len(w.ids[2]) < 4000; i++ {
 		var u uuid.UUID
 		u[0] = 0x40
@@ -202,6 +206,20 @@ func (w *world) call(kind string, id uuid.UUID, dim int, timeout time.Duration) 
 	return w.ds.Remove(ctx, id)
 }
 
+func (w *world) callNoDeadline(kind string, id uuid.UUID, dim int) error {
+	ctx, cancel := context.WithCancel(context.Background())
+	defer cancel()
+	v := make(amath.Vector, dim)
+	v[0] = 2
+	switch kind {
+	case "insert":
+		return w.ds.Insert(ctx, id, v, index.Metadata{"k": "v"})
+	case "update":
+		return w.ds.Update(ctx, id, v, index.Metadata{"k": "w"})
+	}
+	return w.ds.Remove(ctx, id)
+}
+
 type encoder struct{ e *json.Encoder }
 
 // Encode fills the optional fields: TLC's JSON reader does not accept null
@@ -255,7 +273,21 @@ func main() {
 		g.arm(order == "apply-first" && path == "local")
 		t0 := time.Now()
 		done := make(chan error, 1)
-		go func() { done <- w.call(kind, id, dim, 8*time.Second) }()
+		if path == "down" {
+			// the owner's address is known, nothing listens there (the process is gone); the caller has set no time
+			// limit (handler contexts and the CLI do not): the call still has to come back, with an error
+			w.conn.AddNode(2, "127.0.0.1:1")
+			go func() { done <- w.callNoDeadline(kind, id, dim) }()
+			select {
+			case err := <-done:
+				done <- err
+			case <-time.After(4 * time.Second):
+				done <- errors.New("HANG: no answer within 4 s")
+			}
+			w.conn.AddNode(2, w.node.Addr)
+		} else {
+			go func() { done <- w.call(kind, id, dim, 8*time.Second) }()
+		}
 		if order == "apply-first" && path == "local" {
 			select {
 			case n := <-g.arrived:
@@ -355,6 +387,7 @@ func main() {
 			single(kind, "remote-ok", "caller-first", w.fresh(pRemote))
 			single(kind, "remote-err", "caller-first", w.fresh(pRemote))
 			single(kind, "noaddr", "caller-first", w.fresh(pNoAddr))
+			single(kind, "down", "caller-first", w.fresh(pRemote))
 		}
 		single("insert", "baddim", "caller-first", w.fresh(pLocal))
 		single("update", "baddim", "caller-first", w.fresh(pRemote))
